@@ -595,6 +595,13 @@ int _vnacal_apply_common(vnacal_apply_args_t vaa)
 		vaa.vaa_function, vaa.vaa_frequencies);
 	return -1;
     }
+    for (int i = 0; i < vaa.vaa_frequencies; ++i) {
+	if (isnan(vaa.vaa_frequency_vector[i])) {
+	    _vnacal_error(vcp, VNAERR_USAGE, "%s: invalid frequency value",
+		    vaa.vaa_function);
+	    return -1;
+	}
+    }
     for (int i = 0; i < vaa.vaa_frequencies - 1; ++i) {
 	if (vaa.vaa_frequency_vector[i] >= vaa.vaa_frequency_vector[i + 1]) {
 	    _vnacal_error(vcp, VNAERR_USAGE, "%s: non-increasing frequencies",
